@@ -10,10 +10,12 @@ import __future__
 import abc
 import asyncio
 import contextvars
+import copy
 import dataclasses
 import datetime
 import decimal
 import enum
+import functools
 import gc
 import inspect
 import io
@@ -32,6 +34,8 @@ from concurrent.futures import Future as CFuture
 import pydantic
 import typing_extensions
 
+import taskiq
+import taskiq.brokers.shared_broker as shmod
 import taskiq.message as tmsg
 import taskiq.receiver.receiver as rmod
 from taskiq import SimpleRetryMiddleware, TaskiqDepends, TaskiqMiddleware
@@ -1248,6 +1252,178 @@ def function_got(i, *values):
     CUR.setdefault("got", []).append([i] + [type(v).__name__ for v in values])
 
 
+def decorated(i, M, fn, dep, loop, give, made, pre):
+    """the callable registered as the task of message i, built around the innermost function `fn` (M["deco"]):
+    how = wraps / wraps2        one / two decorator layers made with functools.wraps (each has __wrapped__)
+          nowraps              a decorator that does not use functools.wraps (declares the dependency itself)
+          async_over_sync      an `async def` functools.wraps wrapper around a SYNC function (called on the loop)
+          partial_uw           functools.partial(f, mode=1) + functools.update_wrapper(partial, f): __wrapped__ = f, whose
+                               default mode=0 is the innermost behaviour
+          partial_named        the same partial given __name__ / __annotations__ by hand (no __wrapped__)
+          instance(_uw)        an object with __call__ (async: inspect.markcoroutinefunction), __name__ and __annotations__ set
+                               by hand / by functools.update_wrapper(obj, fn)
+          wrapped_attr         a function whose __wrapped__ attribute was set by hand
+    layers (outermost first): on = None (passes on what happens below) | "raise" (catches an Exception from below) | "ret"
+    (looks at the value from below), then ends with `out` ("final" = M["out"]).  The outermost layer first spends
+    M["segs"][:pre]."""
+    D, out = M["deco"], M["out"]
+    how, layers = D["how"], D["layers"]
+    asy = M["style"] == "async"
+    has_dep = M["dep"] != "none"
+
+    def layer_out(L):
+        return out if L["out"] == "final" else L["out"]
+
+    async def a_apply(L, call, a, kw):
+        try:
+            v = await call(*a, **kw)
+        except Exception:
+            if L.get("on") == "raise":
+                return give(layer_out(L))
+            raise
+        if L.get("on") == "ret":
+            return give(layer_out(L))
+        return v
+
+    def s_apply(L, call, a, kw):
+        try:
+            v = call(*a, **kw)
+        except Exception:
+            if L.get("on") == "raise":
+                return give(layer_out(L))
+            raise
+        if L.get("on") == "ret":
+            return give(layer_out(L))
+        return v
+
+    async def a_top(L, call, a, kw):
+        log(i, "body.start")
+        try:
+            for s in pre:
+                await susp(s)
+            v = await a_apply(L, call, a, kw)
+        except BaseException as e:
+            if isinstance(e, asyncio.CancelledError) and not any(e is m for m in made):
+                log(i, "body.end", "cancelled")
+            else:
+                log(i, "body.end", "raise", excid(e))
+            raise
+        log(i, "body.end", "ret", val(v))
+        return v
+
+    def s_top(L, call, a, kw):
+        log(i, "body.start")
+        if threading.get_ident() == CUR.get("loop_thread"):
+            log(i, "body.inloop")
+        else:
+            e = CUR.get("entered")
+            if e is not None:
+                e.set()
+            for s in pre:
+                loop.thread_vsleep(s)
+        try:
+            v = s_apply(L, call, a, kw)
+        except BaseException as e:
+            log(i, "body.end", "raise", excid(e))
+            raise
+        log(i, "body.end", "ret", val(v))
+        return v
+
+    def layer(below, L, top, wraps, below_sync=False):
+        if asy:
+            if below_sync:
+                async def call(*a, **kw):
+                    return below(*a, **kw)
+            else:
+                call = below
+
+            async def w(*a, **kw):
+                if top:
+                    return await a_top(L, call, a, kw)
+                return await a_apply(L, call, a, kw)
+        else:
+            def w(*a, **kw):
+                if top:
+                    return s_top(L, below, a, kw)
+                return s_apply(L, below, a, kw)
+        return functools.wraps(below)(w) if wraps else w
+
+    def with_dep(f):
+        """a function with the written-out parameter list of the plain task functions"""
+        if not has_dep:
+            return f
+        if asy:
+            async def g(d: int = TaskiqDepends(dep)):
+                return await f(d=d)
+        else:
+            def g(d: int = TaskiqDepends(dep)):
+                return f(d=d)
+        return g
+
+    if how in ("wraps", "wraps2"):
+        for k in reversed(range(len(layers))):
+            fn = layer(fn, layers[k], k == 0, True)
+        return fn
+    if how == "async_over_sync":
+        return layer(fn, layers[0], True, True, below_sync=True)
+    full = layer(fn, layers[0], True, False)
+    if how == "nowraps":
+        return with_dep(full)
+    if how == "wrapped_attr":
+        g = with_dep(full) if has_dep else full
+        g.__wrapped__ = fn
+        return g
+    if how in ("partial_uw", "partial_named"):
+        if asy:
+            if has_dep:
+                async def f(d: int = TaskiqDepends(dep), *, mode=0):
+                    return await (full if mode else fn)(d=d)
+            else:
+                async def f(*, mode=0):
+                    return await (full if mode else fn)()
+        else:
+            if has_dep:
+                def f(d: int = TaskiqDepends(dep), *, mode=0):
+                    return (full if mode else fn)(d=d)
+            else:
+                def f(*, mode=0):
+                    return (full if mode else fn)()
+        p = functools.partial(f, mode=1)
+        if how == "partial_uw":
+            functools.update_wrapper(p, f)
+        else:
+            p.__name__, p.__annotations__, p.__module__ = "task_partial", {}, __name__
+        return p
+    if how in ("instance", "instance_uw"):
+        if asy:
+            if has_dep:
+                class TaskObject:
+                    async def __call__(self, d: int = TaskiqDepends(dep)):
+                        return await full(d=d)
+            else:
+                class TaskObject:
+                    async def __call__(self):
+                        return await full()
+        else:
+            if has_dep:
+                class TaskObject:
+                    def __call__(self, d: int = TaskiqDepends(dep)):
+                        return full(d=d)
+            else:
+                class TaskObject:
+                    def __call__(self):
+                        return full()
+        obj = TaskObject()
+        if how == "instance_uw":
+            functools.update_wrapper(obj, fn)
+        else:
+            obj.__name__, obj.__annotations__ = "task_object", {}
+        if asy:
+            inspect.markcoroutinefunction(obj)
+        return obj
+    raise ValueError(how)
+
+
 def make_task(broker, i, M, loop, name=None, group=None):
     """register the function of message i under `name` (default t<i>).  group = key of the re-registration group: the
     functions registered one after the other under one name declare the SAME dependency (one callable object, whose log
@@ -1285,6 +1461,47 @@ def make_task(broker, i, M, loop, name=None, group=None):
         for s in M["segs"]:
             loop.thread_vsleep(s)
         return finish_body()
+
+    D = M.get("deco")
+    inner_style = M["style"]
+    if D:
+        # M["deco"] (pipeline_lib.gen_deco): the callable REGISTERED as the task is not the function the user wrote but
+        # something built around it - decorator layers (functools.wraps or not), a functools.partial, a callable object,
+        # a function carrying __wrapped__.  M["out"] / M["segs"] describe the registered callable (what the statement is
+        # about); the innermost function on its own ends with D["inner"] after M["segs"][D["pre"]:].  The registered
+        # callable logs body.start / body.end, the innermost function inner.start / inner.end (no model effect).
+        pre, rest = M["segs"][:D.get("pre", 0)], M["segs"][D.get("pre", 0):]
+        made = []
+        if D["how"] == "async_over_sync":
+            inner_style = "sync"
+
+        def give(o):
+            if "raise" in o:
+                e = exc_instance(o["raise"], o.get("x"))
+                made.append(e)
+                raise e
+            return o["ret"]
+
+        def inner_end():
+            o = out if D["inner"] == "final" else D["inner"]     # ("final": layers that pass everything through)
+            log(i, "inner.end", *(("raise", o["raise"]) if "raise" in o else ("ret", o["ret"])))
+            return give(o)
+
+        async def abody():      # noqa: F811  (the innermost function's own body)
+            log(i, "inner.start")
+            for s in rest:
+                await susp(s)
+            return inner_end()
+
+        def sbody():            # noqa: F811
+            log(i, "inner.start")
+            if threading.get_ident() != CUR.get("loop_thread"):
+                e = CUR.get("entered")
+                if e is not None:
+                    e.set()
+                for s in rest:
+                    loop.thread_vsleep(s)
+            return inner_end()
 
     dw = (lambda: i) if group is None else who
 
@@ -1340,13 +1557,13 @@ def make_task(broker, i, M, loop, name=None, group=None):
             parts.append("*")
         parts += kwo + xkwo + ([varkw] if varkw else [])
         src = "%sdef fn(%s)%s:\n%s    return %s\n" % (
-            "async " if M["style"] == "async" else "", ", ".join(parts), ret,
+            "async " if inner_style == "async" else "", ", ".join(parts), ret,
             "    got(I, %s)\n" % ", ".join(names) if names else "",
-            "await abody()" if M["style"] == "async" else "sbody()")
+            "await abody()" if inner_style == "async" else "sbody()")
         flags = __future__.annotations.compiler_flag if P.get("future") else 0
         exec(compile(src, "<task function of message %d>" % i, "exec", flags=flags, dont_inherit=True), ns)  # noqa: S102
         fn = ns["fn"]
-    elif M["style"] == "async":
+    elif inner_style == "async":
         if M["dep"] == "none":
             async def fn():
                 return await abody()
@@ -1360,6 +1577,8 @@ def make_task(broker, i, M, loop, name=None, group=None):
         else:
             def fn(d: int = TaskiqDepends(dep)):
                 return sbody()
+    if D:
+        fn = decorated(i, M, fn, dep, loop, give, made, pre)
     name = name or "t%d" % i
     if M.get("reg_via") == "decorator":
         broker.task(task_name=name)(fn)
@@ -1844,6 +2063,95 @@ def run_recv(case):
 
 
 # ------------------------------------------------------------------------------------- send side
+def shared_reset():
+    """put the shared broker object (module global of taskiq) and the class-level task registry back as they were"""
+    st = CUR.pop("shared_state", None)
+    if st is None:
+        return
+    obj, snap, reg = st
+    for k in list(vars(obj)):
+        if k not in snap:
+            delattr(obj, k)
+    for k, v in snap.items():
+        setattr(obj, k, v)
+    cur = AsyncBroker.global_task_registry
+    for k in list(cur):
+        if k not in reg:
+            del cur[k]
+    cur.update(reg)
+
+
+async def shared_scenario(case, brokers, step):
+    """sends through a SHARED task (taskiq.brokers.shared_broker): case["shared"] = {glob, mws, task_labels, via, init};
+    every send S has S["sh"] = {ops, via, name?, rebind?}.  The sends are steps of one sequential scenario (the default
+    broker is process-wide state).  ops, applied before the send: ["default", b] -> shared.default_broker(brokers[b]);
+    ["unset"] -> default_broker(None); ["prepare", name, labels_add] -> a kicker obtained from the task NOW (bound to
+    whatever the default broker is now; to the shared broker itself when there is none) and kept under `name`.  via:
+    kicker -> task.kicker() now; kiq -> task.kiq() (task id from the broker's id_generator); use -> the kept kicker `name`
+    (rebind = b: re-pointed with with_broker first).  The shared broker is index len(brokers): its formatter is a recording
+    one and its kick() is wrapped (instance attribute) so that an attempt to send through it is logged before the real
+    method decides."""
+    sh, tbl, sends = case["shared"], case["labels"], case["sends"]
+    SH = len(brokers)
+    shared = taskiq.async_shared_broker if sh.get("glob", True) else shmod.AsyncSharedBroker()
+    CUR["shared_state"] = (shared, {k: (copy.copy(v) if isinstance(v, (list, dict, set)) else v) for k, v in vars(shared).items()},
+                           dict(AsyncBroker.global_task_registry))
+    shared._rec_b = SH
+    shared.formatter = RecFormatter(shared)
+    real_kick = shared.kick
+
+    async def kick(message):
+        log(who(), "kick", message.task_id, canon(message.labels), SH)
+        await real_kick(message)
+    shared.kick = kick
+    if sh.get("mws"):
+        shared.add_middlewares(*make_mws(sh["mws"], tbl, base=100 * SH))
+
+    def idgen():
+        return "id%d" % sends[who()]["id"]
+    for br in brokers + [shared]:
+        br.id_generator = idgen
+
+    async def shared_fn():
+        return None
+    labels = typed_labels(tbl, sh["task_labels"])
+    if sh.get("via") == "register_task":
+        task = shared.register_task(shared_fn, task_name="shared_task", **labels)
+    else:
+        task = shared.task(task_name="shared_task", **labels)(shared_fn)
+    kept = {}
+
+    def apply(ops):
+        for op in ops or []:
+            if op[0] == "default":
+                shared.default_broker(brokers[op[1]])
+            elif op[0] == "unset":
+                shared.default_broker(None)
+            elif op[0] == "prepare":
+                k = task.kicker()
+                if op[2]:
+                    k = k.with_labels(**op[2])
+                kept[op[1]] = k
+            else:
+                raise ValueError(op)
+    apply(sh.get("init"))
+    for i, S in enumerate(sends):
+        asyncio.current_task().set_name("m%d" % i)
+        await susp(S.get("arrive"))
+        h = S["sh"]
+        apply(h.get("ops"))
+        if h["via"] == "kiq":
+            await step(i, task)
+            continue
+        if h["via"] == "use":
+            k = kept[h["name"]]
+            if h.get("rebind") is not None:
+                k = k.with_broker(brokers[h["rebind"]])
+        else:
+            k = task.kicker()
+        await step(i, k.with_task_id("id%d" % S["id"]))
+
+
 def run_send(case):
     """loose sends: one fresh kicker each, all concurrent (broker S["broker"], default 0).
     chains (S["chain"] = c): the sends of one chain are STEPS on one AsyncKicker object, run one after the other by one
@@ -1920,6 +2228,16 @@ def run_send(case):
                     await life_ops(k.broker, op.get("life"))
                 await step(i, k.with_task_id("id%d" % S["id"]))
 
+        if case.get("shared"):
+            lt = [asyncio.create_task(life_task(brokers, [x for x in life["at"] if x[1] < len(brokers)]), name="life")] \
+                if life.get("at") else []
+            try:
+                await shared_scenario(case, brokers, step)
+            finally:
+                shared_reset()
+            await asyncio.gather(*lt)
+            await drain_inflight()
+            return list(LOG), loop.time_us(), list(CUR.get("life_log", []))
         chains = {}
         ts = []
         for i, S in enumerate(sends):
